@@ -257,7 +257,7 @@ def bit(x):
 
 INT_W = {"B": 1, "H": 2, "I": 4, "Q": 8}
 FIXED_W = {"20s": 20, "32s": 32, "64s": 64, "74s": 74}
-LIST_BOUND = 2
+LIST_BOUND = 3 if thorough() else 2       # elements enumerated for list-valued fields
 
 
 def field(fmt, name, fam, nlist):
